@@ -181,7 +181,7 @@ def c17(tier, seed):
 
 
 def _c17(tier, seed):
-    return combine([format_family(tier)], ['midpoints', 'mixed_currency_echoes'],
+    return combine([format_family(tier)] + reports(tier, ['report_q'], []), ['midpoints', 'mixed_currency_echoes', 'wasm_reports'],
                    'money values in thousandths of a pound (every half-penny midpoint in -3..3, magnitudes around every digit-count '
                    'boundary up to 2,000,000, each netted against a loss of 5.006 in the same tax year) placed in the slots of a '
                    'TaxReport and shown by the plain-text formatter, the JSON serialiser and the PDF (text runs of the compiled '
